@@ -58,6 +58,7 @@ type summary struct {
 	OnceSites    int      `json:"once_sites_rewritten"`
 	PoolSites    int      `json:"pool_sites_rewritten"`
 	Unmodelled   []string `json:"unmodelled_blocking"`
+	DiskMode     string   `json:"disk_mode"`
 	LoopVarWarns []string `json:"loopvar_capture_warnings"`
 }
 
@@ -67,6 +68,19 @@ type fileCtx struct {
 	file   *ast.File
 	edits  []edit
 	needsI bool
+}
+
+var osFileMode = "sim"
+
+// diskFn names the verifsim replacement of an os function in the selected disk mode.
+func diskFn(name string) string {
+	if osFileMode == "real" {
+		switch name {
+		case "Open", "Create", "OpenFile", "ReadFile", "WriteFile", "Remove", "Rename":
+			return "verifsim." + name + "Real"
+		}
+	}
+	return "verifsim." + name
 }
 
 var (
@@ -81,6 +95,7 @@ func main() {
 	dir := flag.String("dir", "", "package directory to rewrite in place")
 	simrt := flag.String("simrt", "", "directory holding verifsim.go")
 	sumFile := flag.String("summary", "", "where to write the summary JSON")
+	flag.StringVar(&osFileMode, "osfile", "sim", "sim: os.Open etc. return *verifsim.File; real: they keep returning *os.File (real files under the simulator's directory)")
 	flag.Parse()
 	if *dir == "" || *simrt == "" {
 		fatal("usage: instrument -dir D -simrt S [-summary F]")
@@ -160,6 +175,7 @@ func main() {
 		os.WriteFile(gm, nb, 0o644)
 	}
 
+	sum.DiskMode = osFileMode
 	sum.YieldSites = 0
 	for _, s := range sum.Sites {
 		switch s.Kind {
@@ -334,12 +350,15 @@ func rewriteFile(fc *fileCtx, pkg *types.Package) {
 					yieldAfter(x)
 				}
 			case *ast.ExprStmt:
+				// a call used as a statement is executed for its effect (delete, Store, Put,
+				// Write, Unlock, ...): a scheduling point after it
 				if c, ok := x.X.(*ast.CallExpr); ok {
-					if id, ok := c.Fun.(*ast.Ident); ok && id.Name == "delete" {
-						if _, isB := info.Uses[id].(*types.Builtin); isB {
-							yieldAfter(x)
+					if id, ok := c.Fun.(*ast.Ident); ok {
+						if _, isB := info.Uses[id].(*types.Builtin); isB && id.Name != "delete" && id.Name != "copy" {
+							break // panic, print, ...
 						}
 					}
+					yieldAfter(x)
 				}
 			}
 		}
@@ -407,11 +426,11 @@ func rewriteFile(fc *fileCtx, pkg *types.Package) {
 				removed["time"]++
 				sum.ClockSites++
 			} else if sel, ok := isPkgCall(x.Fun, "os", "Open"); ok {
-				fc.replace(sel.Pos(), sel.End(), "verifsim.Open")
+				fc.replace(sel.Pos(), sel.End(), diskFn("Open"))
 				removed["os"]++
 				sum.DiskSites++
 			} else if sel, ok := isPkgCall(x.Fun, "os", "Create"); ok {
-				fc.replace(sel.Pos(), sel.End(), "verifsim.Create")
+				fc.replace(sel.Pos(), sel.End(), diskFn("Create"))
 				removed["os"]++
 				sum.DiskSites++
 			} else if sel, ok := isPkgCall(x.Fun, "os", "Stat"); ok {
@@ -422,7 +441,7 @@ func rewriteFile(fc *fileCtx, pkg *types.Package) {
 				"os":        {"OpenFile", "Lstat", "ReadFile", "WriteFile", "Remove", "Rename"},
 				"io/ioutil": {"ReadFile", "WriteFile"},
 			}); ok {
-				fc.replace(sel.Pos(), sel.End(), "verifsim."+name)
+				fc.replace(sel.Pos(), sel.End(), diskFn(name))
 				removed[pkg]++
 				sum.DiskSites++
 			} else if sel, ok := x.Fun.(*ast.SelectorExpr); ok && syncMethod(sel) != "" {
